@@ -17,24 +17,20 @@
 //               cycle in which an element ticked or a valid element disappeared.
 #include "hk_ho.h"
 
-// One binary covers several configurations {NKEYS, BULK, NCYC, EXTRA_OPS} (enumerated first, so shards split on them):
+// One binary covers several configurations {NKEYS, BULK, NCYC, EXTRA_OPS, FMASK} (enumerated first, so shards split on them):
 //   NKEYS individually scripted keys; BULK further keys acted on as one group; NCYC cycles in which the source acts;
-//   EXTRA_OPS 1: an absent key may also be created without a value (phantom) or be added and removed within one cycle
+//   EXTRA_OPS 1: an absent key may also be created without a value (phantom) or be added and removed within one cycle;
+//   FMASK bit set of the mapped functions explored: bit 0 inc, 1 running sum, 2 key-consuming, 3 self-scheduling,
+//         4 broadcast argument, 5 late (silent first tick)
 #ifndef CONFIGS
-#define CONFIGS {3, 0, 3, 0}, {1, 4, 3, 0}, {2, 0, 3, 1}
-#endif
-#ifndef NFUNC      // functions explored: 0 inc, 1 running sum, 2 key-consuming, 3 self-scheduling, 4 broadcast arg, 5 late (silent first tick)
-#define NFUNC 6
-#endif
-#ifndef FUNC0      // first function index explored
-#define FUNC0 0
+#define CONFIGS {3, 0, 3, 0, 10}, {2, 0, 3, 0, 63}, {1, 4, 3, 0, 63}, {2, 0, 3, 1, 35}
 #endif
 
 using namespace hk;
 
 namespace {
 using U = std::uint64_t;
-struct Cfg { int nkeys, bulk, ncyc, extra; };
+struct Cfg { int nkeys, bulk, ncyc, extra, fmask; };
 constexpr Cfg CFGS[] = {CONFIGS};
 constexpr int NCFG = sizeof(CFGS) / sizeof(CFGS[0]);
 constexpr int MAXK = 16;
@@ -337,7 +333,12 @@ extern "C" int harness_main() {
     G = CFGS[NCFG > 1 ? verif_choice("cfg", NCFG) : 0];
     NKEYS = G.nkeys; BULK = G.bulk; NK = NKEYS + BULK; NCYC = G.ncyc;
     if (NK > MAXK) { verif_fail("C10.harness_configuration"); return 0; }
-    g_func = FUNC0 + (NFUNC > 1 ? verif_choice("func", NFUNC) : 0);
+    {
+        int funcs[6], nf = 0;
+        for (int f = 0; f < 6; f++) if (G.fmask & (1 << f)) funcs[nf++] = f;
+        if (nf == 0) { verif_fail("C10.harness_configuration"); return 0; }
+        g_func = funcs[nf > 1 ? verif_choice("func", nf) : 0];
+    }
     run_sim(build_graph<Top>(), MIN_ST, MIN_ST + TimeDelta{NCYC + 3});
 
     verif_assert(g_checks == NCYC + 1, "C10.checker_ran_every_cycle");
